@@ -364,6 +364,17 @@ func pickNext(cur *Thread) *Thread {
 			return nil
 		}
 	}
+	// timers that are already due (created with a non-positive duration, or overtaken by the clock) fire at once: they do
+	// not wait for the system to go idle
+	if len(s.timers) > 0 {
+		for {
+			tm := nextTimer()
+			if tm == nil || tm.when > s.now {
+				break
+			}
+			fireNextTimer()
+		}
+	}
 	fruitless := 0
 	for {
 		enabled := s.enabledBuf[:0]
@@ -688,6 +699,26 @@ func Advance(d time.Duration) {
 		s.now = target
 	}
 	Quiesce()
+}
+
+// AdvanceRacing moves the virtual clock forward by d and fires the timers that become due, WITHOUT letting the woken
+// threads run first: they are merely enabled and race with whatever the caller does next. (Advance lets the system go
+// quiescent after every timer, so a timer can never fire "while" another thread is in the middle of an operation.)
+func AdvanceRacing(d time.Duration) {
+	if !s.active {
+		return
+	}
+	target := s.now + d
+	for {
+		tm := nextTimer()
+		if tm == nil || tm.when > target {
+			break
+		}
+		fireNextTimer()
+	}
+	if s.now < target {
+		s.now = target
+	}
 }
 
 // PendingTimers returns the number of live timers (diagnostics).
